@@ -480,6 +480,194 @@ func kvfsFullDiskSized(c *Ctx, what string, whKind string, size string, n int) {
 	})
 }
 
+
+// kvfsOverlap: two writers on one warehouse address at the same time. Writer A (ware X) is held at its pause-th write;
+// writer B (file://: another ware Y, the address is the same; ca+file://: the same ware X) runs to completion; A resumes.
+// At every step after B's start a reader inspects the final address: absent, or a ware that scans to the id its last
+// successful committer announced. Recipe: "kvfs-overlap <pack-tar|pack-zip|mirror> <ca|file> <pause>".
+func kvfsOverlap(c *Ctx, what, whKind string, pause int) {
+	caseCounter++
+	op := fmt.Sprintf("kvfs-overlap %s %s %d", what, whKind, pause)
+	base := filepath.Join(c.Work, fmt.Sprintf("kvov%d", caseCounter))
+	defer rmrf(base)
+	srcX, srcY, whDir, srcWh := filepath.Join(base, "srcx"), filepath.Join(base, "srcy"), filepath.Join(base, "wh"), filepath.Join(base, "srcwh")
+	os.MkdirAll(whDir, 0755)
+	os.MkdirAll(srcWh, 0755)
+	os.Setenv("RIO_CACHE", filepath.Join(base, "cache"))
+	ctx := context.Background()
+	pf := api.MustParseFilesetPackFilter(losslessPackStr)
+	fmtName, fn := "tar", funcsFor("tar")
+	if what == "pack-zip" {
+		fmtName, fn = "zip", funcsFor("zip")
+	}
+	mk := func(dir string, seed byte, n int) api.WareID {
+		os.MkdirAll(dir, 0755)
+		b := make([]byte, n)
+		x := uint32(seed)*2654435761 + 1
+		for i := range b { // incompressible: many write calls reach the warehouse
+			x = x*1664525 + 1013904223
+			b[i] = byte(x >> 24)
+		}
+		os.WriteFile(filepath.Join(dir, "blob"), b, 0644)
+		os.WriteFile(filepath.Join(dir, "name"), []byte{seed}, 0644)
+		id, _ := fn.pack(ctx, api.PackType(fmtName), dir, pf, whAddr("ca", srcWh), rio.Monitor{})
+		return id
+	}
+	idX := mk(srcX, 'x', 300000)
+	idY := idX
+	srcB := srcX
+	if whKind == "file" {
+		idY = mk(srcY, 'y', 200000)
+		srcB = srcY
+	}
+	if idX.Hash == "" || idY.Hash == "" {
+		c.EmitR(op, "skip", "skip")
+		return
+	}
+	scanTo := func(want ...api.WareID) string {
+		final := storedWarePath(whKind, whDir, idX)
+		if _, e := os.Lstat(final); e != nil {
+			return "absent"
+		}
+		sid, e2, pan := safeCall(func() (api.WareID, error) {
+			return fn.scan(ctx, api.PackType(fmtName), api.MustParseFilesetUnpackFilter(losslessUnpackStr), rio.Placement_Direct, api.WarehouseLocation("file://"+final), rio.Monitor{})
+		})
+		if e2 == nil && pan == "" {
+			for _, w := range want {
+				if sid == w {
+					return "complete:" + string([]byte{w.Hash[0]}) + w.Hash[len(w.Hash)-3:]
+				}
+			}
+		}
+		return "partial"
+	}
+	write := func(id api.WareID, src string) string {
+		var e error
+		var pan string
+		if what == "mirror" {
+			_, e, pan = safeCall(func() (api.WareID, error) {
+				return fn.mirror(ctx, id, whAddr(whKind, whDir), []api.WarehouseLocation{whAddr("ca", srcWh)}, rio.Monitor{})
+			})
+		} else {
+			_, e, pan = safeCall(func() (api.WareID, error) {
+				return fn.pack(ctx, api.PackType(fmtName), src, pf, whAddr(whKind, whDir), rio.Monitor{})
+			})
+		}
+		switch {
+		case pan != "":
+			return "panic"
+		case e != nil:
+			return "err " + catOf(e)
+		}
+		return "ok"
+	}
+	var mu sync.Mutex
+	writesA, aHeld, bRunning := 0, false, false
+	paused, resume := make(chan struct{}), make(chan struct{})
+	partial := ""
+	polls := 0
+	verifhook.Set(func(name string, detail []string) error {
+		mu.Lock()
+		held, inB := aHeld, bRunning
+		mu.Unlock()
+		if inB || held {
+			// a step of B while A is held, or of A after B finished: the reader looks
+			if name == "kvfs.write" || strings.HasPrefix(name, "kvfs.commit") {
+				verifhookQuiet(func() {
+					polls++
+					if polls%4 == 0 || strings.HasPrefix(name, "kvfs.commit") {
+						if r := scanTo(idX, idY); r == "partial" && partial == "" {
+							partial = "a reader saw a partial ware at the final address during " + name
+						}
+					}
+				})
+			}
+			return nil
+		}
+		if name == "kvfs.write" {
+			mu.Lock()
+			writesA++
+			hit := writesA == pause+1
+			if hit {
+				aHeld = true
+			}
+			mu.Unlock()
+			if hit {
+				close(paused)
+				<-resume
+			}
+		}
+		return nil
+	})
+	defer verifhook.Set(nil)
+	doneA := make(chan string, 1)
+	go func() { doneA <- write(idX, srcX) }()
+	resA, resB, afterB := "", "not-run", "-"
+	select {
+	case resA = <-doneA: // fewer writes than `pause`: no overlap happened
+	case <-paused:
+		mu.Lock()
+		bRunning = true
+		mu.Unlock()
+		resB = write(idY, srcB)
+		mu.Lock()
+		bRunning = false
+		mu.Unlock()
+		afterB = scanTo(idY)
+		close(resume)
+		select {
+		case resA = <-doneA:
+		case <-time.After(30 * time.Second):
+			resA = "timeout"
+		}
+	case <-time.After(30 * time.Second):
+		resA = "timeout"
+	}
+	verifhook.Set(nil)
+	afterA := scanTo(idX, idY)
+	st := 0
+	filepath.Walk(whDir, func(p string, fi os.FileInfo, e error) error {
+		if e == nil && strings.HasPrefix(filepath.Base(p), ".tmp.upload") {
+			st++
+		}
+		return nil
+	})
+	c.EmitR(op, "skip", "skip")
+	cls := func(k string) string {
+		if what == "mirror" && k == "ok-but-not-served" {
+			return "mirror-not-served"
+		}
+		return k
+	}
+	if partial != "" {
+		c.PropFail("reader-saw-partial", partial, op)
+	}
+	if afterA == "partial" || afterB == "partial" {
+		c.PropFail("partial-ware-served", fmt.Sprintf("two overlapping writers (A %s, B %s) left a ware at the final address that does not scan to its id (after B: %s, after A: %s)", resA, resB, afterB, afterA), op)
+	}
+	if resB == "ok" && !strings.HasPrefix(afterB, "complete") {
+		c.PropFail(cls("ok-but-not-served"), "writer B returned success while A was held, but the address does not serve B's ware: "+afterB, op)
+	}
+	if resA == "ok" && afterA != scanToName(idX) {
+		c.PropFail(cls("ok-but-not-served"), fmt.Sprintf("writer A returned success after B (%s), but the address does not serve A's ware: %s", resB, afterA), op)
+	}
+	if strings.HasPrefix(resA, "err") && resB == "ok" && afterA != scanToName(idY) {
+		c.PropFail("error-but-committed", fmt.Sprintf("writer A failed (%s) and changed what the address serves: %s after B, %s after A", resA, afterB, afterA), op)
+	}
+	if resA == "panic" || resB == "panic" {
+		c.PropFail("kvfs-panic", "panic on the write path", op)
+	}
+	if st != 0 && resA != "timeout" {
+		c.PropFail("staging-left", fmt.Sprintf("%d staging file(s) left after both writers returned (A %s, B %s)", st, resA, resB), op)
+	}
+	c.H("overlap:" + what + ":" + whKind + ":" + strings.Fields(resA)[0] + ":" + strings.Fields(resB)[0])
+	c.Distinct(op)
+}
+
+func scanToName(w api.WareID) string {
+	return "complete:" + string([]byte{w.Hash[0]}) + w.Hash[len(w.Hash)-3:]
+}
+
 func kvfsEngine(c *Ctx) {
 	if ls := replayLines(); ls != nil {
 		for _, op := range ls {
@@ -495,6 +683,11 @@ func kvfsEngine(c *Ctx) {
 			} else if strings.HasPrefix(op, "kvfs-xdev ") {
 				f := strings.Fields(op)
 				kvfsXdev(c, f[1], f[2])
+			} else if strings.HasPrefix(op, "kvfs-overlap ") {
+				f := strings.Fields(op)
+				n := 0
+				fmt.Sscan(f[3], &n)
+				kvfsOverlap(c, f[1], f[2], n)
 			} else if strings.HasPrefix(op, "kvfs-shrink ") {
 				f := strings.Fields(op)
 				kvfsShrink(c, f[1], f[2])
@@ -541,6 +734,12 @@ func kvfsEngine(c *Ctx) {
 	for _, w := range []string{"pack-tar", "mirror"} {
 		kvfsXdev(c, w, "64k")  // too small for the ware
 		kvfsXdev(c, w, "8m")   // large enough
+	}
+	for _, w := range whats {
+		for _, k := range []string{"ca", "file"} {
+			kvfsOverlap(c, w, k, 0)
+			kvfsOverlap(c, w, k, 1+c.Intn(6))
+		}
 	}
 	for _, fm := range []string{"tar", "zip"} {
 		for _, k := range []string{"ca", "file"} {
